@@ -2,7 +2,9 @@
 package props
 
 import (
+	_ "go.amzn.com/verifh/c01"
 	_ "go.amzn.com/verifh/c10"
+	_ "go.amzn.com/verifh/c14"
 	_ "go.amzn.com/verifh/c11"
 	_ "go.amzn.com/verifh/smoke"
 )
